@@ -114,6 +114,15 @@ def rule_S3(ctx):
                  not any(x["id"] == n_["id"] for x in walk(loop))]
         if inits:
             i0 = cval(inits[-1][1])
+        # every other store outside the loop that can still be in force at the test must agree
+        for n_, lv_, op_, r_ in stores(eq.body):
+            if lv_["k"] in ("ref", "var") and lv_.get("name") == ivar and cfg.pos(n_) is not None and \
+                    not any(x["id"] == n_["id"] for x in walk(loop)) and \
+                    (op_ not in ("=", "init") or r_ is None or cval(r_) != i0) and \
+                    cfg.search(cfg.pos(n_), lambda e: e == c["id"]) is not None:
+                later = [m_ for m_, _r in inits if cfg.dominates(n_, m_)]
+                if not later:
+                    i0 = None
     if loop.get("inc") is not None:
         stepped = "++" in key(loop["inc"])
     elif ivar:
@@ -234,14 +243,30 @@ def rule_S3(ctx):
                 if end != pr[0]:
                     continue
                 fs = [negate_truth(bm.nodes[x[1]], x[2]) for x in items if x[0] == "br"]
+                from ..util import resolve_local
+
+                def _src(e_):
+                    e_ = strip_casts(e_)
+                    if e_["k"] == "ref":
+                        e_ = strip_casts(resolve_local(bm, e_))
+                    return e_
+
                 def _nolb(cc, tt):
                     nn = nullness(cc, tt)
-                    return nn is not None and nn[0]["k"] == "member" and nn[0]["field"] == "lb" and nn[1]
+                    if nn is None or not nn[1]:
+                        return False
+                    x_ = _src(nn[0])
+                    return x_["k"] == "member" and x_["field"] == "lb"
 
                 def _clean(cc, tt):
                     nn = nullness(cc, tt)
-                    return nn is not None and is_call(nn[0], "lbuf_modified") and nn[1]
-                if not any(_clean(cc, tt) or _nolb(cc, tt) for cc, tt in fs):
+                    return nn is not None and nn[1] and is_call(_src(nn[0]), "lbuf_modified")
+
+                def _saved(cc, tt):
+                    # autowrite: the save returned no error message
+                    nn = nullness(cc, tt)
+                    return nn is not None and nn[1] and is_call(_src(nn[0]), "lbuf_save")
+                if not any(_clean(cc, tt) or _nolb(cc, tt) or _saved(cc, tt) for cc, tt in fs):
                     okr = False
             if okr:
                 ctx.ok("bufs_modified", "clean verdict only when lbuf_modified is false", loc=bm.loc(r))
@@ -250,10 +275,11 @@ def rule_S3(ctx):
                               "returns 0 (not modified) without lbuf_modified being false", bm.loc(r))
     idxp = bm.params[0]["name"]
     for n in bm.walk():
-        if n["k"] == "var" and n.get("init") is not None and "bufs[" in key(n["init"]):
-            if key(n["init"]) != "(&bufs[%s])" % idxp:
+        # every element of the table that is looked at is the slot asked about
+        if n["k"] == "sub" and strip_casts(n["base"])["k"] == "ref" and strip_casts(n["base"])["name"] == "bufs":
+            if key(strip_casts(n["idx"])) != idxp:
                 ctx.violation("bufs_modified", "slot under test", "tests %s instead of slot %s"
-                              % (key(n["init"]), idxp), bm.loc(n))
+                              % (key(n), idxp), bm.loc(n))
 
 
 # ----------------------------------------------------------------------------------------
@@ -279,6 +305,12 @@ def rule_N1(ctx):
                 ctx.ok(f.name, "store buf.%s" % lf[1], loc=f.loc(n))
                 continue
             allowed = BUF_FIELD_WRITERS.get(f.name, set())
+            if not allowed and f.static:
+                # a private helper of the allowed writers: all its callers must be allowed the field
+                cs_ = [h_ for h_ in prog.funcs.values() if h_ is not f and any(
+                    prog.resolve(h_, c_["fn"]) is f for c_ in h_.calls() if c_.get("fn"))]
+                if cs_ and all(lf[1] in BUF_FIELD_WRITERS.get(h_.name, set()) for h_ in cs_):
+                    allowed = {lf[1]}
             base = lv
             while base["k"] in ("member",) and base["base"]["k"] != "sub":
                 base = base["base"]
@@ -349,7 +381,17 @@ def _expr_interval(prog, f, e, at, depth):
     if e["k"] == "call" and e.get("fn") and depth < 3:
         g = prog.resolve(f, e["fn"])
         if g is not None:
-            return _ret_interval(prog, g, depth + 1)
+            iv = _ret_interval(prog, g, depth + 1)
+            if iv is None:
+                # the path-based range of the return value (pointer form, while loops, helpers)
+                from .. import bounds as _b
+                old_ = _b._PROG[0]
+                _b._PROG[0] = prog
+                try:
+                    iv = _b._ret_range(f, e)
+                finally:
+                    _b._PROG[0] = old_
+            return iv
     if e["k"] == "cond":
         a = _expr_interval(prog, f, strip_casts(e["t"]), at, depth)
         b = _expr_interval(prog, f, strip_casts(e["f"]), at, depth)
@@ -1001,6 +1043,20 @@ def _bounded_loop_var(f, name, rv):
             if _over_range(lp["init"]["r"], rv) and c is not None and c["k"] == "bin" and c["op"] == "<" \
                     and key(c["l"]) == name and _over_range(c["r"], rv):
                 return True
+        # `i = beg; while (i < end) { ..; i++; }`
+        if lp["k"] == "while" and lp.get("c") is not None:
+            c = strip_casts(lp["c"])
+            if c["k"] == "bin" and c["op"] in ("<", ">"):
+                lo_, hi_ = (c["l"], c["r"]) if c["op"] == "<" else (c["r"], c["l"])
+                if key(strip_casts(lo_)) == name and _over_range(hi_, rv):
+                    inside = [n_ for n_, lv_, op_, r_ in stores(lp["body"]) if lv_["k"] == "ref" and lv_["name"] == name]
+                    outside = [(n_, r_) for n_, lv_, op_, r_ in stores(f.body)
+                               if lv_["k"] in ("ref", "var") and lv_.get("name") == name and
+                               not any(x["id"] == n_["id"] for x in walk(lp))]
+                    if inside and all(n_.get("op") in ("post++", "pre++") for n_ in inside) and len(outside) == 1 and \
+                            outside[0][1] is not None and _over_range(outside[0][1], rv) and \
+                            f.cfg.dominates(outside[0][0], lp["c"]):
+                        return True
     return False
 
 
